@@ -161,6 +161,18 @@ let () =
               print_string (slist (do_inline (sym n) (proc p) (List.map expr (lst args))) ^ "\n")
           | L [A "inline0"; p; args] ->
               print_string (slist (inline_call (proc p) (List.map expr (lst args))) ^ "\n")
+          | L [A "elim"; p; args] ->
+              print_string (slist (elim_ws (inline_call (proc p) (List.map expr (lst args)))) ^ "\n")
+          | L [A "validate"; blk; c] ->
+              let b = List.map stmt (lst blk) in
+              (match stmt c with
+               | Call (f, args) as call ->
+                   let nb = if binds_nothing b then " binds-nothing" else " binds" in
+                   if validate_strict b call then print_string ("strict" ^ nb ^ "\n")
+                   else if validate b call then print_string ("certified" ^ nb ^ "\n")
+                   else if not (inline_ok f args) then print_string "no side-conditions\n"
+                   else print_string "no mismatch\n"
+               | _ -> print_string "no not-a-call\n")
           | _ -> print_string "error bad-job\n"
         with Failure m -> print_string ("error " ^ m ^ "\n")
            | Stack_overflow -> print_string "error stack-overflow\n");
